@@ -93,9 +93,10 @@ def type_region(t, env, tagdefault=None):
         if sz and sz["ext"] and sz["hi"] is None and k != "UTF8String": return "F112"   # SIZE(lb..MAX,...)
         if k in KM_KINDS and x.get("alpha"):
             cs = _alpha_codes(x)
-            if len(cs) == 1: return "F71"
-            b = max(1, (len(cs) - 1).bit_length())
-            if cs[-1] == (1 << b): return "F114"                     # ub == 2^b: off-by-one in X.691 30.5.4 test
+            # a single-character alphabet (0 bits per character, former F71 region) is compared like any other:
+            # asn1c tests `unit_bits > 0 && ub <= 2^unit_bits`, so F114 needs at least two characters
+            b = (len(cs) - 1).bit_length()
+            if b > 0 and cs[-1] == (1 << b): return "F114"           # ub == 2^b: off-by-one in X.691 30.5.4 test
     return None
 
 def value_region(t, v, env, tagdefault=None):
@@ -257,6 +258,10 @@ def fixed_module(rng, quick=True):
     add("FAl3", T("PrintableString", alpha=["A", "B", "C"], size=cons(2, 2)), ["AB", "CC"])
     add("FAl4", T("IA5String", alpha=[(" ", "?")]), ["", " ?", "0:5"])         # N = 32, b = 5, ub = 63 > 31: by index
     add("FAl5", T("IA5String", alpha=[("\x00", "\x07"), "\x0f"]), ["", "\x00\x07\x0f"])   # N = 9, b = 4, ub = 15 <= 15: by value
+    # N = 1, b = 0: zero-width characters, the encoding is the length determinant alone (former F71 region)
+    add("FAl6", T("IA5String", alpha=["a"]), ["", "a", "aaaaa", "a" * 130])
+    add("FAl7", T("PrintableString", alpha=["Z"], size=cons(0, 5)), ["", "Z", "ZZZZZ"])
+    add("FAl8", T("SEQUENCE OF", elem=T("IA5String", alpha=["q"], size=cons(2, 2))), [[], ["qq", "qq", "qq"]])
     add("FBmp", T("BMPString", size=cons(0, 3)), ["", "a", "aé€"])
     add("FUni", T("UniversalString", size=cons(1, 2)), ["a", "a\U0010ffff"])
     add("FU8", T("UTF8String", size=cons(1, 2)), ["a", "é€"])            # SIZE not PER-visible
